@@ -14,3 +14,8 @@ pub(crate) fn verif_backtrace_stub() -> std::backtrace::Backtrace {
 pub(crate) fn verif_cpuid_stub(_leaf: u32, _sub: u32) -> core::arch::x86_64::CpuidResult {
     core::arch::x86_64::CpuidResult { eax: 0, ebx: 0, ecx: 0, edx: 0 }
 }
+
+#[allow(dead_code)]
+pub(crate) fn verif_empty_string() -> String {
+    String::new()
+}
